@@ -33,7 +33,7 @@ def getType (j : Json) : Except String SegType := do
   | s => throw s!"bad type {s}"
 
 /-- the identity codec stands for any lossless codec (the law is exercised on the real codecs by the harness) -/
-def idCodec : Codec := ⟨id, id⟩
+def idCodec : Codec := { enc := id, dec := id }
 
 def getCodec (j : Json) : Except String (Option Codec) := do
   pure (if (← getBool j "native") then none else some idCodec)
@@ -112,9 +112,15 @@ def handlers : List (String × Handler) := [
     pure (exceptToJson id r)),
   ("roundtrip", fun j => do
     let codec ← getCodec j
+    let allow ← getBool j "allow_missing"
+    let mode ← (if allow then pure ReadMode.assertEmpty else do
+      let mf ← getBool j "multiframe"
+      if mf then pure ReadMode.byFrame else do
+        let nsrc ← getNat j "nsrc"
+        pure (ReadMode.byInstance nsrc))
     let r := roundtrip codec (← getNat j "rows") (← getNat j "cols") (← getType j) (← getNatList j "segs")
       (← getNat j "mfv") (← getBool j "omit") (← getNatList j "order") (← getMask j)
-      (← getNatList j "request") (← getBool j "allow_missing")
+      (← getNatList j "request") mode
     pure (exceptToJson nat3ToJson r)),
   ("castMask", fun j => do
     let r := castMask (← getNatList j "segs") (← getType j) (← getMask j)
